@@ -249,6 +249,7 @@ def run(ctx: common.Run):
         ctx.report_unproved('lean-build', f'{failing}', {'theorem_or_correspondence': failing})
         return
     check_seeded_sampling(ctx, cirq)
+    check_state_api_seeds(ctx, cirq)
     check_scoped_feed_forward(ctx, cirq)
     check_sampling_is_pure(ctx, cirq)
     n = 160 if ctx.tier == 'quick' else 1500
@@ -447,6 +448,36 @@ def check_sampling_is_pure(ctx, cirq):
                 if not np.allclose(before, after, atol=1e-9):
                     ctx.report_witness(f'sample:mutates:{name}', f'sampling a {name} step result (split_untangled_states={split}) changed its state',
                                        {'lines': [{'circuit': repr(prep)}], 'impl_out': [repr(np.round(after, 6).tolist())], 'spec_out': [repr(np.round(before, 6).tolist())], 'theorem_or_correspondence': 'sample_pure'})
+
+
+def check_state_api_seeds(ctx, cirq):
+    """the measure / sample entry points of the state objects draw all their outcomes from one random source: over forty integer seeds
+    a two-qubit |++> measured on both axes shows all four outcomes (an integer seed re-used per axis would only ever give 00 and 11)"""
+    builders = {
+        'StabilizerStateChForm.measure': lambda: cirq.StabilizerStateChForm(2), 'CliffordTableau.measure': lambda: cirq.CliffordTableau(2),
+    }
+    for name, mk in builders.items():
+        seen = set()
+        for seed in range(40):
+            st = mk()
+            st.apply_h(0)
+            st.apply_h(1)
+            seen.add(tuple(int(b) for b in st.measure([0, 1], seed=seed)))
+        ctx.count('check', 'state-api-seeds')
+        ctx.case(['state-api-seeds', name], True)
+        if seen != {(0, 0), (0, 1), (1, 0), (1, 1)}:
+            ctx.report_witness(f'seed:per-axis:{name.split(".")[0]}', f'{name}(axes=[0, 1], seed=<int>) on |++>: the outcomes of the two axes are perfectly correlated over 40 seeds (the seed is re-used for every axis)',
+                               {'lines': [{'entry_point': name, 'seeds': '0..39', 'state': '|++>'}], 'impl_out': [sorted(seen)], 'spec_out': ['all four outcomes (each has probability 1/4 per seed)'],
+                                'theorem_or_correspondence': 'outcome completeness (one random source per call)'})
+    psi = np.full(4, 0.5, dtype=np.complex128)
+    seen = {tuple(int(b) for b in cirq.measure_state_vector(psi, [0, 1], seed=seed)[0]) for seed in range(40)}
+    seen_dm = {tuple(int(b) for b in cirq.measure_density_matrix(np.outer(psi, psi.conj()).reshape(2, 2, 2, 2), [0, 1], seed=seed)[0]) for seed in range(40)}
+    seen_s = {tuple(int(b) for b in row) for seed in range(12) for row in cirq.sample_state_vector(psi, [0, 1], repetitions=4, seed=seed)}
+    for name, sn in (('measure_state_vector', seen), ('measure_density_matrix', seen_dm), ('sample_state_vector', seen_s)):
+        ctx.count('check', 'state-api-seeds')
+        if sn != {(0, 0), (0, 1), (1, 0), (1, 1)}:
+            ctx.report_witness(f'seed:per-axis:{name}', f'cirq.{name} on |++> with integer seeds does not show all four outcomes', {'lines': [{'entry_point': name}], 'impl_out': [sorted(sn)], 'spec_out': ['all four outcomes'],
+                               'theorem_or_correspondence': 'outcome completeness (one random source per call)'})
 
 
 def check_seeded_sampling(ctx, cirq):
